@@ -454,7 +454,12 @@ def run_path(harness, params, prefix, opts):
     want_cc = opts.get("crosscheck", True)
     otimeout = opts.get("otimeout", 60.0)
     if out["status"] == "ok":
+        ob_budget = opts.get("path_obligation_budget", 150.0)
+        ob_spent = 0.0
         for name, cond in env.obligations:
+            if ob_spent > ob_budget:
+                out["obligations"].append({"name": name, "result": "unknown", "solver": "budget", "seconds": 0.0})
+                continue
             if z3.is_true(cond):
                 out["obligations"].append({"name": name, "result": "unsat", "solver": "simplify", "seconds": 0.0})
                 continue
@@ -465,6 +470,7 @@ def run_path(harness, params, prefix, opts):
                 if m_rest:
                     for k_, v_ in m_rest.items():
                         m.setdefault(k_, v_)
+            ob_spent += info.get("seconds", 0.0)
             ob = {"name": name, "result": r, "solver": info.get("solver"), "seconds": round(info.get("seconds", 0.0), 4)}
             if r == "sat":
                 ob["model"] = _model_to_json(m)
@@ -485,16 +491,35 @@ def run_path(harness, params, prefix, opts):
         out["info"] = env.info
     if out["status"] in ("ok", "exception", "unsupported") and want_cc:
         # a model of the path condition for the concrete cross-check / replay of the exception
-        m, interior = _interior_model(pc, opts.get("qtimeout", 30.0))
+        # witness input for the concrete run.  ConcEnv reads only the declared input variables, so when the path
+        # condition carries auxiliary symbols (roots, Euler decompositions, named trig constants) in non-linear
+        # constraints, the conjuncts over the inputs alone are solved instead (a projection: the concrete run is then
+        # a test on a nearby input, not necessarily on this very path; a concrete failure is real either way)
+        inputs = set(env.vars)
+        pc_in = [c for c in pc if solve._syms(c) <= inputs]
+        projected = False
+        if len(pc_in) < len(pc) and any(solve.is_nonlinear(c) for c in pc if c not in pc_in):
+            m, interior = _interior_model(pc_in, min(10.0, opts.get("qtimeout", 30.0)))
+            projected = True
+        else:
+            m, interior = _interior_model(pc, opts.get("qtimeout", 30.0))
+            if m is None and len(pc_in) < len(pc):
+                m, interior = _interior_model(pc_in, min(10.0, opts.get("qtimeout", 30.0)))
+                projected = True
+        out["pc_model_projected"] = projected
         if m is not None:
             out["pc_model"] = _model_to_json(m)
             out["pc_model_interior"] = interior
             out["crosscheck"] = run_concrete(harness, params, m)
-    if out["status"] in ("unsupported", "exception") and want_cc and opts.get("fallback_models", 6) > 0:
+    inconclusive_ob = out["status"] == "ok" and any(o["result"] == "unknown" for o in out["obligations"])
+    if (out["status"] in ("unsupported", "exception") or inconclusive_ob) and want_cc and opts.get("fallback_models", 6) > 0 \
+            and not (out.get("crosscheck") or {}).get("failed") and (out.get("crosscheck") or {}).get("status") != "exception":
         # The symbolic run could not finish this path.  Guard (not the deciding step): run the plain package on
         # several diversified models of the partial path condition; a concrete failure is a real counterexample.
         fb = []
-        for dm in _diverse_models(pc, env.vars, opts.get("fallback_models", 6), opts.get("qtimeout", 30.0), seed=len(prefix)):
+        inputs_ = set(env.vars)
+        pc_fb = [c for c in pc if solve._syms(c) <= inputs_] if inconclusive_ob else pc
+        for dm in _diverse_models(pc_fb, env.vars, opts.get("fallback_models", 6), min(10.0, opts.get("qtimeout", 30.0)), seed=len(prefix)):
             rc = run_concrete(harness, params, dm)
             if rc["status"] == "exception" or rc.get("failed"):
                 fb.append({"model": _model_to_json(dm), "result": rc})
